@@ -24,7 +24,7 @@ use octo_squirrel::manager::shadowsocks::ServerUserManager;
 use octo_squirrel::protocol::address::Address;
 use octo_squirrel::protocol::shadowsocks::Mode;
 use octo_squirrel::protocol::shadowsocks::aead::openssl_bytes_to_key;
-use octo_squirrel::protocol::shadowsocks::aead_2022::password_to_keys;
+use octo_squirrel::protocol::shadowsocks::aead_2022::configured_keys;
 use rand::random;
 use tcp::PayloadCodec;
 use tcp::ServerContext;
@@ -89,7 +89,7 @@ async fn startup_udp<const N: usize>(config: &ServerConfig<SslConfig>, user_mana
     }
     if config.mode.enable_udp() {
         let (key, identity_keys) = if config.cipher.is_aead_2022() {
-            password_to_keys(&config.password).map_err(|e| anyhow!(e))?
+            configured_keys(&config.password).map_err(|e| anyhow!(e))?
         } else {
             (openssl_bytes_to_key(config.password.as_bytes()), Vec::new())
         };
@@ -345,7 +345,7 @@ mod tcp {
         pub fn init(config: &ServerConfig<SslConfig>, user_manager: Arc<ServerUserManager<N>>) -> Result<Self> {
             let kind = config.cipher;
             let (key, identity_keys) = if kind.is_aead_2022() {
-                password_to_keys(&config.password).map_err(|e| anyhow!(e))?
+                configured_keys(&config.password).map_err(|e| anyhow!(e))?
             } else {
                 let key = aead::openssl_bytes_to_key(config.password.as_bytes());
                 (key, Vec::with_capacity(0))
